@@ -808,6 +808,8 @@ class Interp:
             return self.exec_body(f.body, env)
         if isinstance(f, Native):
             return f.fn(self, this, args)
+        if isinstance(f, JObj) and '__call__' in f.props:
+            return self.call(f.props['__call__'], args, this)
         if isinstance(f, CondVal):
             # calling a conditionally chosen function: run both under their conditions
             self.pc.append(f.c)
